@@ -132,9 +132,9 @@ def setup():
 
 def cacheseq_runs(tier, seed):
     if tier == "quick":
-        mc_cfg, gen_cfgs, nsim, simdepth = "CacheSeq_mc_quick.cfg", ["CacheSeq_q0.cfg", "CacheSeq_t2.cfg", "CacheSeq_q3.cfg", "CacheSeq_inj.cfg"], 250, 9
+        mc_cfg, gen_cfgs, nsim, simdepth = "CacheSeq_mc_quick.cfg", ["CacheSeq_q0.cfg", "CacheSeq_t2.cfg", "CacheSeq_q3.cfg", "CacheSeq_inj.cfg", "CacheSeq_repair.cfg"], 250, 9
     else:
-        mc_cfg, gen_cfgs, nsim, simdepth = "CacheSeq_mc_thorough.cfg", ["CacheSeq_q0.cfg", "CacheSeq_t0.cfg", "CacheSeq_t1.cfg", "CacheSeq_t2.cfg", "CacheSeq_q3.cfg", "CacheSeq_inj.cfg", "CacheSeq_injT.cfg"], 1500, 13
+        mc_cfg, gen_cfgs, nsim, simdepth = "CacheSeq_mc_thorough.cfg", ["CacheSeq_q0.cfg", "CacheSeq_t0.cfg", "CacheSeq_t1.cfg", "CacheSeq_t2.cfg", "CacheSeq_q3.cfg", "CacheSeq_inj.cfg", "CacheSeq_injT.cfg", "CacheSeq_repair.cfg"], 1500, 13
     thunks = [lambda: run_tlc("MCCacheSeq", mc_cfg, deadlock=True, timeout=3000, workers=8)]
     for g in gen_cfgs:
         thunks.append(lambda g=g: run_tlc("MCCacheSeq", g, deadlock=True, timeout=3000, workers=4))
